@@ -21,10 +21,12 @@ func JSONWriteProp(b *[]byte, name string, val []byte) (notEmpty bool) {
 	if len(val) == 0 {
 		return false
 	}
+	mark := len(*b)
 	JSONWriteComma(b)
 	success := JSONWritePropName(b, name) && JSONWriteValue(b, val)
 	if !success {
-		*b = (*b)[:len(*b)-1]
+		// NOTE: nothing of a property that could not be written completely must remain in the buffer
+		*b = (*b)[:mark]
 	}
 	return success
 }
@@ -189,6 +191,7 @@ func JSONWriteItemCollectionValue(b *[]byte, col ItemCollection, compact bool) (
 			JSONWrite(b, ',')
 		}
 	}
+	mark := len(*b)
 	JSONWrite(b, '[')
 	skipComma := true
 	for _, it := range col {
@@ -201,6 +204,8 @@ func JSONWriteItemCollectionValue(b *[]byte, col ItemCollection, compact bool) (
 		}
 		v, err := im.MarshalJSON()
 		if err != nil {
+			// NOTE: do not leave a half written array behind
+			*b = (*b)[:mark]
 			return false
 		}
 		if len(v) == 0 {
@@ -218,10 +223,12 @@ func JSONWriteItemCollectionProp(b *[]byte, n string, col ItemCollection, compac
 	if len(col) == 0 {
 		return notEmpty
 	}
+	mark := len(*b)
 	JSONWriteComma(b)
 	success := JSONWritePropName(b, n) && JSONWriteItemCollectionValue(b, col, compact)
 	if !success {
-		*b = (*b)[:len(*b)-1]
+		// NOTE: nothing of a property that could not be written completely must remain in the buffer
+		*b = (*b)[:mark]
 	}
 	return success
 }
